@@ -595,6 +595,16 @@ def check(run):
                     run.count('sepcell %s %s %s' % info['cell'])
                     for kname, c in info['kinds'].items():
                         run.count(kname, c)
+    # shadowing matrix: every (inner binder kind, outer binder kind) pair, the same name rebound
+    sreps = 2 if run.tier == 'quick' else 25
+    j = 0
+    for inner in gen_prog.BINDERS:
+        for outer in gen_prog.BINDERS:
+            for _ in range(sreps if inner != outer or inner not in ('comp', 'objcomp') else 3 * sreps):
+                text, info = gen_prog.gen_shadow_program(rng, inner, outer)
+                scen.append(('h%d' % j, text, info))
+                j += 1
+                run.count('shadow %s over %s' % info['pair'])
     compare_programs(run, sides, scen, 'scenario')
     vlib.log('C02: scenario streams %.0fs' % (_t.time() - t0)); t0 = _t.time()
     import random as _r
